@@ -310,8 +310,10 @@ def internal_specs(sc):
     if p8:
         for v in range(4):
             for at in ('start', 'end'):
-                if v == 3 and at == 'start':
-                    continue    # an unclosed [[ in front of the code may be closed by a ]] in the code
+                if v in (1, 3) and at == 'start':
+                    # an unclosed [[ or " in front of the code may be closed by a ]] or " in the code
+                    # (picotool's lexer lets a quoted string run over line ends): not reliably unparseable
+                    continue
                 specs.append({'kind': 'lua_writer_unparseable', 'variant': v, 'at': at})
         secs = ['gfx'] + (['label'] if sc.has_label() else []) + ['gff', 'map', 'sfx', 'music']
         for s in secs:
